@@ -75,9 +75,48 @@ def split_top(s, sep=","):
     if cur.strip(): out.append(cur)
     return out
 
+def r13_chain_tail(text, log):
+    """R13 ("chain-tail peeling"): `for PAT in ITER.chain([E]) { BODY }` -> `{ for PAT in ITER { BODY } { let PAT = E; BODY } }`.
+    `Iterator::chain` is a provided trait method and cannot be specified for Verus.  Applied only when the chained tail is a
+    ONE-element array literal whose element is a path or a reference to a path (no side effects) and BODY contains no `break`,
+    no `continue` and no loop label: then the body runs once per item of ITER and once more for E, in that order, in both forms."""
+    for _ in range(8):
+        toks = lex(text)
+        sigidx = [i for i, t in enumerate(toks) if t.kind not in ("ws", "lcomment", "bcomment")]
+        pos = {i: n for n, i in enumerate(sigidx)}
+        done = False
+        for n, i in enumerate(sigidx):
+            t = toks[i]
+            if not (t.kind == "ident" and t.text == "for"): continue
+            prev = toks[sigidx[n-1]] if n > 0 else None
+            if prev is None or not (prev.kind == "punct" and prev.text in (";", "{", "}")): continue
+            j = n + 1; kin = None
+            while j < len(sigidx):
+                tt = toks[sigidx[j]]
+                if tt.kind == "punct" and tt.text in ("(", "["):
+                    j = pos[match_forward(toks, sigidx[j])] + 1; continue
+                if tt.kind == "ident" and tt.text == "in" and kin is None: kin = j
+                if tt.kind == "punct" and tt.text == "{": break
+                j += 1
+            if kin is None or j >= len(sigidx): continue
+            b = toks[sigidx[j]]; bclose = match_forward(toks, sigidx[j])
+            pat = text[t.e:toks[sigidx[kin]].s].strip()
+            expr = text[toks[sigidx[kin]].e:b.s].strip()
+            m = re.match(r"^(.*)\.\s*chain\s*\(\s*\[\s*(&?\s*[A-Za-z_][A-Za-z0-9_:]*)\s*\]\s*\)$", expr, re.S)
+            if not m: continue
+            body_toks = toks[sigidx[j] + 1:bclose]
+            if any((x.kind == "ident" and x.text in ("break", "continue")) or x.kind == "life" for x in body_toks): continue
+            body = text[b.e:toks[bclose].s]
+            new = "{\nfor %s in %s {%s}\n{\nlet %s = %s;%s}\n}" % (pat, m.group(1).strip(), body, pat, m.group(2), body)
+            text = text[:t.s] + new + text[toks[bclose].e:]
+            log.add("R13"); done = True
+            break
+        if not done: break
+    return text
+
 def rewrite_fn(item, in_trait_impl, log):
     """Apply the mechanical rewrites to one fn item; returns list of lines."""
-    text = item.text
+    text = r13_chain_tail(item.text, log)
     toks = lex(text)
     edits = []  # (start, end, replacement)
 
